@@ -219,7 +219,7 @@ func execProg(cc contract.CallContext, r *txRec, pg *prog) error {
 			ass := cc.GetAccountState(self.ID())
 			ass.SetBalance(new(big.Int).Add(ass.GetBalance(), n))
 		case "xfer":
-			h, err := cc.ContractManager().GetCallHandler(self, e.addr[o.A], big.NewInt(o.N), contract.CTypeTransfer, nil)
+			h, err := cc.ContractManager().GetCallHandler(self, mustAddr(e, o.A), big.NewInt(o.N), contract.CTypeTransfer, nil)
 			if err != nil {
 				r.fail("xfer handler: %v", err)
 				return err
@@ -231,7 +231,7 @@ func execProg(cc contract.CallContext, r *txRec, pg *prog) error {
 				return status
 			}
 		case "call":
-			to, ok := e.addr[o.A]
+			to, ok := e.addrOf(o.A)
 			if !ok {
 				r.fail("call: unknown account %q", o.A)
 				return scoreresult.UnknownFailureError.New("verif: unknown account")
@@ -516,7 +516,7 @@ func (h *eeHandler) run(cc contract.CallContext, r *txRec, pg *prog, avail *big.
 			ass := cc.GetAccountState(self.ID())
 			ass.SetBalance(new(big.Int).Add(ass.GetBalance(), n))
 		case "xfer":
-			hd, err := cc.ContractManager().GetCallHandler(self, e.addr[o.A], big.NewInt(o.N), contract.CTypeTransfer, nil)
+			hd, err := cc.ContractManager().GetCallHandler(self, mustAddr(e, o.A), big.NewInt(o.N), contract.CTypeTransfer, nil)
 			if err != nil {
 				r.fail("xfer handler: %v", err)
 				return err, used
@@ -530,7 +530,7 @@ func (h *eeHandler) run(cc contract.CallContext, r *txRec, pg *prog, avail *big.
 				return status, used
 			}
 		case "call":
-			to, ok := e.addr[o.A]
+			to, ok := e.addrOf(o.A)
 			if !ok {
 				r.fail("call: unknown account %q", o.A)
 				return scoreresult.UnknownFailureError.New("verif: unknown account"), used
@@ -562,4 +562,12 @@ func (h *eeHandler) run(cc contract.CallContext, r *txRec, pg *prog, avail *big.
 		}
 	}
 	return nil, used
+}
+
+func mustAddr(e *env, n string) module.Address {
+	a, ok := e.addrOf(n)
+	if !ok {
+		panic("verif: unknown account " + n)
+	}
+	return a
 }
